@@ -101,10 +101,13 @@ func (e mdEntityX) real() *saml.EntityDescriptor {
 	for _, d := range e.Descs {
 		var sd saml.SPSSODescriptor
 		for _, a := range d.ACS {
-			sd.AssertionConsumerServices = append(sd.AssertionConsumerServices, saml.IndexedEndpoint{Binding: a.Binding, Location: a.Location, Index: a.Index, IsDefault: a.IsDefault})
+			sd.AssertionConsumerServices = append(sd.AssertionConsumerServices, saml.IndexedEndpoint{Binding: a.Binding, Location: a.Location, Index: a.Index, IsDefault: a.IsDefault, ResponseLocation: a.Resp})
 		}
 		for _, k := range d.Keys {
 			kd := saml.KeyDescriptor{Use: k.Use}
+			for _, m := range k.Methods {
+				kd.EncryptionMethods = append(kd.EncryptionMethods, saml.EncryptionMethod{Algorithm: m})
+			}
 			for _, cs := range k.Certs {
 				kd.KeyInfo.X509Data.X509Certificates = append(kd.KeyInfo.X509Data.X509Certificates, saml.X509Certificate{Data: cs})
 			}
@@ -408,6 +411,11 @@ func (c *Ctx) randMDX(id string, choices []certChoice) mdEntityX {
 			if c.chance(0.3) {
 				x := c.chance(0.5)
 				ep.IsDefault = &x
+			}
+			if c.chance(0.3) {
+				r := fmt.Sprintf("https://sp.example.com/other-response-location%d", c.rng.Intn(3))
+				ep.Resp = &r
+				c.count("c06-acs-response-location", "set")
 			}
 			d.ACS = append(d.ACS, ep)
 		}
@@ -1615,6 +1623,14 @@ func (c *Ctx) genC08() {
 	}
 	for i := 0; i < n; i++ {
 		layouts = append(layouts, c.randKeys(choices))
+	}
+	// the same descriptors with EncryptionMethod children that do / do not name the cipher the IdP uses
+	for _, methods := range [][]string{{"http://www.w3.org/2001/04/xmlenc#aes256-cbc", "http://www.w3.org/2001/04/xmlenc#rsa-oaep-mgf1p"}, {"http://www.w3.org/2009/xmlenc11#aes128-gcm"},
+		{"http://www.w3.org/2001/04/xmlenc#rsa-oaep-mgf1p"}, {"http://www.w3.org/2001/04/xmlenc#aes128-cbc"}, {"urn:unknown:cipher"}} {
+		for _, use := range []string{"encryption", ""} {
+			layouts = append(layouts, []mdKey{{Use: use, Certs: []string{choices[0].data}, Methods: methods}})
+			layouts = append(layouts, []mdKey{{Use: "signing", Certs: []string{choices[1].data}}, {Use: use, Certs: []string{choices[0].data}, Methods: methods}})
+		}
 	}
 	for li, keys := range layouts {
 		sc := c.baseServeCase(choices)
